@@ -513,7 +513,8 @@ int main(int argc, char **argv)
     std::uint64_t const seed = std::strtoull(argv[3], nullptr, 10);
     long const hist = std::strtol(argv[4], nullptr, 10);
     long const maxlen = std::strtol(argv[5], nullptr, 10);
-    for (long h = 0; h < hist; ++h)
+    long const first = argc > 6 ? std::strtol(argv[6], nullptr, 10) : 0; // resume after an aborted history
+    for (long h = first; h < hist; ++h)
     {
       vj::Rng r(seed * 1000003ULL + static_cast<std::uint64_t>(h));
       begin_history(h);
@@ -555,8 +556,10 @@ int main(int argc, char **argv)
     auto lines = vj::read_lines(argv[2]);
     vj::open(argv[3]);
     long h = 0;
+    long const first = argc > 4 ? std::strtol(argv[4], nullptr, 10) : 0; // resume after an aborted script
     for (auto const &l : lines)
     {
+      if (h < first) { ++h; continue; }
       vj::VP script = vj::parse(l);
       begin_history(h++);
       for (auto const &e : script->a) exec(from_json(*e));
